@@ -215,3 +215,49 @@ Example C11_quirk_1102_refuted :
   fst (fst (pbcut ex_pdefs true false 10 0 0 ex_pmsg 0)) = 1 /\
   pbcut ex_pdefs true true 10 0 0 ex_pmsg 0 <> pbcut ex_pdefs true false 10 0 0 ex_pmsg 0.
 Proof. vm_compute. split; [reflexivity|discriminate]. Qed.
+
+(* ================================================================== (G) thrift/utils.go CheckRequires from the source *)
+(* the decision RequiresBitmap.CheckRequires takes for a marked bit (gen/Gen_thriftreq.v, regenerated from the Go text on every
+   build) is the decision of the cutting model's [owed]: required -> error, otherwise skip unless WriteDefault, then the handler
+   (handleUnsets writes the zero value); a marked bit without a field is an error *)
+From DG Require Requireness.
+From DG Require Import Gen_thriftreq Check20g GenThriftreqProofs.
+
+Theorem C11_CheckRequires_source_is_decision :
+  forall wd f i v j, (Requireness.f_req f = 0 \/ Requireness.f_req f = 1 \/ Requireness.f_req f = 2) ->
+  CheckRequires_marked wd i v j (ck_f f) = marked_result (blk_id i j) v (Requireness.check_requires_decision wd f).
+Proof. exact CheckRequires_marked_is_decision. Qed.
+Print Assumptions C11_CheckRequires_source_is_decision.
+
+Theorem C11_CheckRequires_source_nil_field :
+  forall wd i v j r,
+  CheckRequires_marked wd i v j {| CheckRequires_marked_f_Required := r; CheckRequires_marked_f_isnil := true |}
+    = (Out_return, v, [(Eff_FieldById, [blk_id i j]); (Eff_errInvalidBitmapId, [blk_id i j])]).
+Proof. exact CheckRequires_marked_nil. Qed.
+Print Assumptions C11_CheckRequires_source_nil_field.
+
+(* ... and [owed] (ThriftCut.v) takes exactly that decision for a tracked target field that was not written *)
+Theorem C11_owed_step_is_CheckRequires_decision :
+  forall o f r w, mem_id (fld_id f) w = false -> tracked o f = true ->
+  owed o (f :: r) w =
+    match Requireness.check_requires_decision (o_write_default o) {| Requireness.f_id := fld_id f; Requireness.f_req := fld_req f; Requireness.f_hasdef := false |} with
+    | Requireness.AMissing => CErr 3
+    | Requireness.ASkip => owed o r w
+    | _ => match zero_of (fld_ty f), owed o r w with
+           | Some z, COk l => COk ((fld_id f, z) :: l)
+           | None, _ => CErr 4
+           | _, CErr c => CErr c
+           end
+    end.
+Proof. exact owed_step_is_check_requires_decision. Qed.
+Print Assumptions C11_owed_step_is_CheckRequires_decision.
+
+(* the zero value handleUnsets writes for an owed field (BinaryProtocol.WriteEmpty, gen/Gen_thriftempty.v from the Go source) is the
+   encoding of the model's zero_of *)
+From DG Require Gen_thriftempty GenThriftemptyProofs.
+Theorem C11_WriteEmpty_source_writes_zero :
+  forall t z, zero_of t = Some z -> 0 <= GenThriftemptyProofs.key_code t < 256 -> 0 <= GenThriftemptyProofs.elem_code t < 256 ->
+  fst (Gen_thriftempty.BinaryProtocol_WriteEmpty (GenThriftemptyProofs.desc_of_ty t) 0 0 0 0 0 0 0 0 0 0) = 0 /\
+  empty_bytes (snd (Gen_thriftempty.BinaryProtocol_WriteEmpty (GenThriftemptyProofs.desc_of_ty t) 0 0 0 0 0 0 0 0 0 0)) = encode z.
+Proof. exact GenThriftemptyProofs.WriteEmpty_writes_zero. Qed.
+Print Assumptions C11_WriteEmpty_source_writes_zero.
